@@ -107,3 +107,24 @@ package crdt
 //@   property C02
 //@   ensures rpcN == old(rpcN) || (rpcN == old(rpcN) + 1 && rpcLastSvc == "PinTracker" && rpcLastMethod == "Untrack")
 //@   modifies rpcN, rpcLastSvc, rpcLastMethod, heap(api.Pin)
+
+// ---- "Trust follows the configuration": how the trust settings are read from and written to the JSON form ----
+// "*" anywhere in the list means trust everybody; otherwise the list is taken as it is (an EMPTY list trusts nobody
+// but this peer); the written form is the inverse: "*" only for trust-all, else the list verbatim
+//@ func (cfg *Config) applyJSONConfig
+//@   property C07 C15
+//@   requires cfg != nil && jcfg != nil
+//@   ensures [star-means-trust-all] err == nil ==> (cfg.TrustAll <==> exists i int :: 0 <= i && i < len(jcfg.TrustedPeers) && jcfg.TrustedPeers[i] == "*")
+//@   ensures [list-taken-whole] err == nil && !cfg.TrustAll ==> len(cfg.TrustedPeers) == len(jcfg.TrustedPeers)
+//@   ensures [trust-all-has-no-list] err == nil && cfg.TrustAll ==> len(cfg.TrustedPeers) == 0
+//@   loop 1 (range jcfg.TrustedPeers)
+//@     invariant !cfg.TrustAll && len(cfg.TrustedPeers) == idx1 && (forall i int :: 0 <= i && i < idx1 ==> jcfg.TrustedPeers[i] != "*")
+//@   modifies heap(Config), heap(time.Duration), heap(int), heap(string), heap(uint64), heap(bool), heap(float64)
+
+//@ func (cfg *Config) toJSONConfig
+//@   property C07 C15
+//@   requires cfg != nil
+//@   ensures res != nil && fresh(res)
+//@   ensures [trust-all-written-as-star] cfg.TrustAll ==> len(res.TrustedPeers) == 1 && res.TrustedPeers[0] == "*"
+//@   ensures [list-written-whole] !cfg.TrustAll ==> len(res.TrustedPeers) == len(cfg.TrustedPeers)
+//@   modifies nothing
